@@ -38,15 +38,21 @@ theorem C12_flush_imm_dup_changes_read :
 
 example : LsmInv C01_exState ∧ (C01_exState.flush 7).get [1] 9 = C01_exState.get [1] 9 := by decide
 
-/-! ## compaction -/
+/-! ## compaction
+
+Two families of statements. The `_weak` ones use exactly what survives every step of the engine:
+`LayeredX` (recency across sources with L0 taken as one source), the side condition `TopsOldest`
+for L0 → Lbase and `TblsFun` for L0 → L0. The unsuffixed ones are the corollaries for a state whose
+L0 is in age order (`Layered`), where `TopsOldest` is automatic. -/
 
 /-- (C) L0 → Lbase preserves every read at `ts ≥ discardTs`. -/
 theorem C12_compact_reads_L0Lbase {s s' : Lsm} {cd : CompactDef} {d n now' now ts : Nat} {k : Bytes}
-    (h : LsmInv s) (hv : VerBound s) (hl : Layered s) (hc : CompactOk s cd) (hk : IsL0Lbase s cd)
+    (h : LsmInv s) (hv : VerBound s) (hl : LayeredX s) (hc : CompactOk s cd) (hk : IsL0Lbase s cd)
+    (hto : TopsOldest s cd)
     (hdp : cd.dropPrefixes = []) (hs : s.compact cd d n now' = some s') (hts : d ≤ ts) (hnow : now' ≤ now) :
     visible now (s'.get k ts) = visible now (s.get k ts) := by
   obtain ⟨h0, hpos, _, hempty, _⟩ := hk
-  apply LL.compact_reads_two h hv hl hc hdp hs hts hnow (by omega)
+  apply LL.compact_reads_two h hv hl hc (fun _ => hto) hdp hs hts hnow (by omega)
   apply LL.readLv_eq_none
   intro tbls htb t ht
   exfalso
@@ -62,58 +68,112 @@ theorem C12_compact_reads_L0Lbase {s s' : Lsm} {cd : CompactDef} {d n now' now t
 
 /-- (C) Li → Li+1 (`i ≥ 1`) preserves every read at `ts ≥ discardTs`. -/
 theorem C12_compact_reads_LiLnext {s s' : Lsm} {cd : CompactDef} {d n now' now ts : Nat} {k : Bytes}
-    (h : LsmInv s) (hv : VerBound s) (hl : Layered s) (hc : CompactOk s cd) (hk : IsLiLnext s cd)
+    (h : LsmInv s) (hv : VerBound s) (hl : LayeredX s) (hc : CompactOk s cd) (hk : IsLiLnext s cd)
     (hdp : cd.dropPrefixes = []) (hs : s.compact cd d n now' = some s') (hts : d ≤ ts) (hnow : now' ≤ now) :
     visible now (s'.get k ts) = visible now (s.get k ts) := by
-  obtain ⟨_, hnx, _, _⟩ := hk
-  apply LL.compact_reads_two h hv hl hc hdp hs hts hnow (by omega)
+  obtain ⟨h1, hnx, _, _⟩ := hk
+  apply LL.compact_reads_two h hv hl hc (fun h0 => by omega) hdp hs hts hnow (by omega)
   have : cd.nextLevel - cd.thisLevel - 1 = 0 := by omega
   rw [this]; rfl
 
 /-- (C) Lmax → Lmax preserves every read at `ts ≥ discardTs`. -/
 theorem C12_compact_reads_Lmax {s s' : Lsm} {cd : CompactDef} {d n now' now ts : Nat} {k : Bytes}
-    (h : LsmInv s) (hv : VerBound s) (hl : Layered s) (hc : CompactOk s cd) (hk : IsLmax s cd)
+    (h : LsmInv s) (hv : VerBound s) (hl : LayeredX s) (hc : CompactOk s cd) (hk : IsLmax s cd)
     (hdp : cd.dropPrefixes = []) (hs : s.compact cd d n now' = some s') (hts : d ≤ ts) (hnow : now' ≤ now) :
     visible now (s'.get k ts) = visible now (s.get k ts) :=
   LL.compact_reads_same h hv hl hc hdp hs hts hnow hk.2.1 (by rw [hk.2.1]; exact hk.1)
 
-/-- (C) every well-formed compaction other than L0 → L0 preserves every read at a timestamp
-    `ts ≥ discardTs`, as seen at any clock `now ≥` the compaction's clock. Hypotheses beyond the
-    assignment's sketch: `VerBound` (versions fit `uint64`; the overlap tests widen ranges to
-    `key@MaxUint64 … key@0`). `0 < ts` is not needed. -/
-theorem C12_compact_reads {s s' : Lsm} {cd : CompactDef} {d n now' now ts : Nat} {k : Bytes}
-    (h : LsmInv s) (hv : VerBound s) (hl : Layered s) (hc : CompactOk s cd) (hnot : ¬ IsL0L0 s cd)
+/-- (C) L0 → L0 preserves every read at `ts ≥ discardTs`, provided an internal key determines the
+    entry within L0 (`TblsFun`). Since the F1 repair (badger commit d24306c, mirrored in
+    `compactOutput`: `hasOverlap = true` for L0 → L0) no marker is dropped, so no side condition on
+    the tables left out of the compaction is needed, and no recency hypothesis either. `TblsFun` IS
+    still needed, only because `replaceTables` re-sorts L0 by `Smallest` (F2,
+    `C12_L0_order_scrambled`).
+
+    Historical note. Before d24306c `hasOverlap` was computed from the levels `≥ 1` only and the
+    unconditional statement was false (finding F1, former theorem `C12_L0L0_resurrects`): in the
+    state `C12_f1State` below — L0 = [ {1@1 ↦ 42}, {1@2 delete marker} ], L1 empty — the compaction
+    of `top = [1]` alone with `discardTs = 5`, `numKeep = 1` dropped the marker `1@2`, produced no
+    table at all and left L0 = [ {1@1 ↦ 42} ]: the read of key 1 at `ts = 9` went from "absent" to
+    42. With the repair the marker is kept (`C12_L0L0_f1_repaired`). -/
+theorem C12_compact_reads_L0L0_fun {s s' : Lsm} {cd : CompactDef} {d n now' now ts : Nat} {k : Bytes}
+    (h : LsmInv s) (hv : VerBound s) (hc : CompactOk s cd) (hk : IsL0L0 s cd)
+    (hfun : TblsFun (cdThisT s cd))
+    (hdp : cd.dropPrefixes = []) (hs : s.compact cd d n now' = some s') (hts : d ≤ ts) (hnow : now' ≤ now) :
+    visible now (s'.get k ts) = visible now (s.get k ts) :=
+  LL.compact_reads_l0l0 h hv hc hk (LL.tblsFun_chunk hfun) hdp hs hts hnow
+
+/-- the same under "no internal key occurs in two different L0 tables" -/
+theorem C12_compact_reads_L0L0 {s s' : Lsm} {cd : CompactDef} {d n now' now ts : Nat} {k : Bytes}
+    (h : LsmInv s) (hv : VerBound s) (hc : CompactOk s cd) (hk : IsL0L0 s cd)
+    (hdist : TblsDistinct (cdThisT s cd))
+    (hdp : cd.dropPrefixes = []) (hs : s.compact cd d n now' = some s') (hts : d ≤ ts) (hnow : now' ≤ now) :
+    visible now (s'.get k ts) = visible now (s.get k ts) :=
+  C12_compact_reads_L0L0_fun h hv hc hk
+    (LL.tblsFun_of_distinct (fun t ht => ((LL.this_level h hc.1).2.1 t ht).2) hdist) hdp hs hts hnow
+
+/-- (C) every well-formed compaction preserves every read at a timestamp `ts ≥ discardTs`, as seen
+    at any clock `now ≥` the compaction's clock — in the form that composes over arbitrary runs. -/
+theorem C12_compact_reads_weak {s s' : Lsm} {cd : CompactDef} {d n now' now ts : Nat} {k : Bytes}
+    (h : LsmInv s) (hv : VerBound s) (hl : LayeredX s) (hc : CompactOk s cd)
+    (hto : IsL0Lbase s cd → TopsOldest s cd) (hfun : IsL0L0 s cd → TblsFun (cdThisT s cd))
     (hdp : cd.dropPrefixes = []) (hs : s.compact cd d n now' = some s') (hts : d ≤ ts) (hnow : now' ≤ now) :
     visible now (s'.get k ts) = visible now (s.get k ts) := by
   rcases hc.2 with hk | hk | hk | hk
-  · exact C12_compact_reads_L0Lbase h hv hl hc hk hdp hs hts hnow
+  · exact C12_compact_reads_L0Lbase h hv hl hc hk (hto hk) hdp hs hts hnow
   · exact C12_compact_reads_LiLnext h hv hl hc hk hdp hs hts hnow
-  · exact absurd hk hnot
+  · exact C12_compact_reads_L0L0_fun h hv hc hk (hfun hk) hdp hs hts hnow
   · exact C12_compact_reads_Lmax h hv hl hc hk hdp hs hts hnow
 
-/-! ## known finding F1: L0 → L0 may drop a tombstone that still shadows an older L0 table -/
+/-- (C) the main statement: under the structural invariant, `uint64` versions, recency (`Layered`:
+    L0 in age order) and a well-formed compaction of ANY kind — for L0 → L0 with distinct internal
+    keys across the L0 tables — every read at `ts ≥ discardTs` is preserved. `0 < ts` and
+    `CutsAtKeyChange` are not needed. -/
+theorem C12_compact_reads {s s' : Lsm} {cd : CompactDef} {d n now' now ts : Nat} {k : Bytes}
+    (h : LsmInv s) (hv : VerBound s) (hl : Layered s) (hc : CompactOk s cd)
+    (hdist : IsL0L0 s cd → TblsDistinct (cdThisT s cd))
+    (hdp : cd.dropPrefixes = []) (hs : s.compact cd d n now' = some s') (hts : d ≤ ts) (hnow : now' ≤ now) :
+    visible now (s'.get k ts) = visible now (s.get k ts) :=
+  C12_compact_reads_weak h hv (LL.layeredX_of_layered hl) hc
+    (fun hk => LL.topsOldest_of_layered h hl hc.1 hk)
+    (fun hk => LL.tblsFun_of_distinct (fun t ht => ((LL.this_level h hc.1).2.1 t ht).2) (hdist hk))
+    hdp hs hts hnow
+
+/-- `TopsOldest` is needed once L0 is no longer in age order: here L0 (as left by an earlier
+    L0 → L0 re-sort) has the NEWER table `{1@2 delete marker}` first; compacting that prefix to L1
+    drops the marker (`hasOverlap = false`) while the older `1@1 ↦ 42` stays in L0 and becomes
+    visible again. (`fillTablesL0ToLbase` itself would extend `top` over the second table, whose
+    range overlaps; the model's `CompactOk` admits every prefix, so the condition is stated.) -/
+theorem C12_L0Lbase_needs_topsOldest :
+    ∃ (s s' : Lsm) (cd : CompactDef),
+      LsmInv s ∧ VerBound s ∧ LayeredX s ∧ KeyVerUnique s ∧ CompactOk s cd ∧ IsL0Lbase s cd ∧ ¬ TopsOldest s cd ∧
+      s.compact cd 5 1 0 = some s' ∧ visible 0 (s'.get [1] 9) ≠ visible 0 (s.get [1] 9) :=
+  ⟨{ mem := [], imm := [],
+     levels := [[{ ents := [⟨[1], 2, 1, 0, 0, []⟩] }, { ents := [⟨[1], 1, 0, 0, 0, [42]⟩] }], []] },
+   { mem := [], imm := [], levels := [[{ ents := [⟨[1], 1, 0, 0, 0, [42]⟩] }], []] },
+   { thisLevel := 0, nextLevel := 1, top := [0], bot := [], outSizes := [], dropPrefixes := [] },
+   by decide, by decide, by decide, by decide, by decide, by decide, by decide, by lsm_decide, by decide⟩
+
+/-! ## finding F1 (repaired in badger commit d24306c): the old witness -/
 
 def C12_f1State : Lsm :=
   { mem := [], imm := [],
     levels := [[{ ents := [⟨[1], 1, 0, 0, 0, [42]⟩] }, { ents := [⟨[1], 2, 1, 0, 0, []⟩] }], []] }
+/-- the old witness had `outSizes := []` (the marker was dropped and no table written) -/
 def C12_f1Cd : CompactDef :=
-  { thisLevel := 0, nextLevel := 0, top := [1], bot := [], outSizes := [], dropPrefixes := [] }
+  { thisLevel := 0, nextLevel := 0, top := [1], bot := [], outSizes := [1], dropPrefixes := [] }
 def C12_f1State' : Lsm :=
-  { mem := [], imm := [], levels := [[{ ents := [⟨[1], 1, 0, 0, 0, [42]⟩] }], []] }
+  { mem := [], imm := [],
+    levels := [[{ ents := [⟨[1], 2, 1, 0, 0, []⟩] }, { ents := [⟨[1], 1, 0, 0, 0, [42]⟩] }], []] }
 
-/-- F1: the statement of `C12_compact_reads` is FALSE for L0 → L0. The older L0 table (index 0) is
-    not part of the compaction; `hasOverlap` looks only at levels `≥ 1`, so the delete marker
-    `1@2` is dropped and the deleted value `1@1` becomes visible again. -/
-theorem C12_L0L0_resurrects :
-    ∃ (s s' : Lsm) (cd : CompactDef) (d n now' now ts : Nat) (k : Bytes),
-      LsmInv s ∧ VerBound s ∧ Layered s ∧ CompactOk s cd ∧ IsL0L0 s cd ∧ cd.dropPrefixes = [] ∧
-      s.compact cd d n now' = some s' ∧ d ≤ ts ∧ now' ≤ now ∧
-      visible now (s'.get k ts) ≠ visible now (s.get k ts) :=
-  ⟨C12_f1State, C12_f1State', C12_f1Cd, 5, 1, 0, 0, 9, [1], by decide, by decide, by decide, by decide, by decide,
-    rfl, by lsm_decide, by decide, by decide, by decide⟩
-
-example : visible 0 (C12_f1State.get [1] 9) = none ∧
-    visible 0 (C12_f1State'.get [1] 9) = some ⟨[1], 1, 0, 0, 0, [42]⟩ := by decide
+/-- on the F1 witness the repaired compaction keeps the delete marker and the read is unchanged -/
+theorem C12_L0L0_f1_repaired :
+    LsmInv C12_f1State ∧ VerBound C12_f1State ∧ CompactOk C12_f1State C12_f1Cd ∧ IsL0L0 C12_f1State C12_f1Cd ∧
+      TblsDistinct (cdThisT C12_f1State C12_f1Cd) ∧
+      C12_f1State.compact C12_f1Cd 5 1 0 = some C12_f1State' ∧
+      visible 0 (C12_f1State'.get [1] 9) = visible 0 (C12_f1State.get [1] 9) ∧
+      visible 0 (C12_f1State.get [1] 9) = none := by
+  refine ⟨by decide, by decide, by decide, by decide, by decide, by lsm_decide, by decide, by decide⟩
 
 /-! ## known finding F2: `replaceTables` re-sorts L0 by `Smallest` -/
 
@@ -145,30 +205,8 @@ example : C12_f2State.get [2] 5 = some ⟨[2], 1, 0, 0, 0, [11]⟩ ∧
     C12_f2State'.get [2] 5 = some ⟨[2], 1, 0, 0, 0, [10]⟩ := by decide
 
 
-/-- L0 → L0, positive part: the compaction preserves every read at `ts ≥ discardTs` provided
-    (i) no internal key occurs in two different L0 tables (then the order of L0 tables, which
-    `replaceTables` scrambles, is irrelevant — cf. F2) and (ii) no L0 table left out of the
-    compaction shares a user key with a delete/expiry marker the compaction drops (cf. F1). -/
-theorem C12_compact_reads_L0L0 {s s' : Lsm} {cd : CompactDef} {d n now' now ts : Nat} {k : Bytes}
-    (h : LsmInv s) (hv : VerBound s) (hl : Layered s) (hc : CompactOk s cd) (hk : IsL0L0 s cd)
-    (hdist : TblsDistinct (cdThisT s cd))
-    (hex : ∀ e ∈ LL.topEnts s cd, deletedOrExpired e.emeta e.exp now' = true →
-      e ∉ (compactOutput s cd d n now').1 →
-      ∀ t ∈ removeIdx (cdThisT s cd) cd.top, ∀ x ∈ t.ents, x.key ≠ e.key)
-    (hdp : cd.dropPrefixes = []) (hs : s.compact cd d n now' = some s') (hts : d ≤ ts) (hnow : now' ≤ now) :
-    visible now (s'.get k ts) = visible now (s.get k ts) :=
-  LL.compact_reads_l0l0 h hv hl hc hk hdist hex hdp hs hts hnow
-
-/-- L0 → L0 of ALL of L0 (nothing is left out, so (ii) is vacuous) -/
-theorem C12_compact_reads_L0L0_all {s s' : Lsm} {cd : CompactDef} {d n now' now ts : Nat} {k : Bytes}
-    (h : LsmInv s) (hv : VerBound s) (hl : Layered s) (hc : CompactOk s cd) (hk : IsL0L0 s cd)
-    (hdist : TblsDistinct (cdThisT s cd)) (hall : cd.top = List.range (cdThisT s cd).length)
-    (hdp : cd.dropPrefixes = []) (hs : s.compact cd d n now' = some s') (hts : d ≤ ts) (hnow : now' ≤ now) :
-    visible now (s'.get k ts) = visible now (s.get k ts) := by
-  apply C12_compact_reads_L0L0 h hv hl hc hk hdist _ hdp hs hts hnow
-  intro e _ _ _ t ht
-  rw [hall, LL.removeIdx_range] at ht
-  simp at ht
+/-- F2 is exactly a violation of `TblsFun` / `KeyVerUnique` -/
+example : ¬ TblsFun (cdThisT C12_f2State C12_f2Cd) ∧ ¬ KeyVerUnique C12_f2State := by decide
 
 /-- F2, positive part: if no internal key occurs in two different L0 tables, the order of the L0
     tables does not affect any read (`levelHandler.get` keeps a strict maximum). -/
@@ -208,22 +246,23 @@ theorem C12_L0_order_irrelevant_distinct {s : Lsm} {l0 l0' : List Tbl} {rest : L
   simp only [LL.readLv]
   rw [LL.nl_chunk0_perm hp.symm hd]
 
-/-! non-vacuity of the L0 → L0 statements: a compaction of all of L0 that drops a tombstone -/
-def C12_l0allState : Lsm :=
+/-! non-vacuity of the L0 → L0 statement: a compaction of two of three L0 tables; the marker `1@2`
+    is kept (`hasOverlap = true`), the version below it is dropped -/
+def C12_l0State : Lsm :=
   { mem := [⟨[1], 9, 0, 0, 0, [9]⟩], imm := [],
-    levels := [[{ ents := [⟨[1], 1, 0, 0, 0, [42]⟩, ⟨[2], 1, 0, 0, 0, [7]⟩] }, { ents := [⟨[1], 2, 1, 0, 0, []⟩] }], []] }
-def C12_l0allCd : CompactDef :=
-  { thisLevel := 0, nextLevel := 0, top := [0, 1], bot := [], outSizes := [1], dropPrefixes := [] }
-def C12_l0allState' : Lsm :=
-  { mem := [⟨[1], 9, 0, 0, 0, [9]⟩], imm := [], levels := [[{ ents := [⟨[2], 1, 0, 0, 0, [7]⟩] }], []] }
+    levels := [[{ ents := [⟨[1], 1, 0, 0, 0, [42]⟩, ⟨[2], 1, 0, 0, 0, [7]⟩] }, { ents := [⟨[3], 1, 0, 0, 0, [3]⟩] },
+                { ents := [⟨[1], 2, 1, 0, 0, []⟩] }], []] }
+def C12_l0Cd : CompactDef :=
+  { thisLevel := 0, nextLevel := 0, top := [0, 2], bot := [], outSizes := [2], dropPrefixes := [] }
+def C12_l0State' : Lsm :=
+  { mem := [⟨[1], 9, 0, 0, 0, [9]⟩], imm := [],
+    levels := [[{ ents := [⟨[1], 2, 1, 0, 0, []⟩, ⟨[2], 1, 0, 0, 0, [7]⟩] }, { ents := [⟨[3], 1, 0, 0, 0, [3]⟩] }], []] }
 
-example : LsmInv C12_l0allState ∧ VerBound C12_l0allState ∧ Layered C12_l0allState ∧
-    CompactOk C12_l0allState C12_l0allCd ∧ IsL0L0 C12_l0allState C12_l0allCd ∧
-    TblsDistinct (cdThisT C12_l0allState C12_l0allCd) ∧
-    C12_l0allCd.top = List.range (cdThisT C12_l0allState C12_l0allCd).length ∧
-    C12_l0allState.compact C12_l0allCd 5 1 0 = some C12_l0allState' := by
+example : LsmInv C12_l0State ∧ VerBound C12_l0State ∧ Layered C12_l0State ∧ KeyVerUnique C12_l0State ∧
+    CompactOk C12_l0State C12_l0Cd ∧ IsL0L0 C12_l0State C12_l0Cd ∧
+    TblsDistinct (cdThisT C12_l0State C12_l0Cd) ∧
+    C12_l0State.compact C12_l0Cd 5 1 0 = some C12_l0State' := by
   refine ⟨by decide, by decide, by decide, by decide, by decide, by decide, by decide, by lsm_decide⟩
-
 
 /-! non-vacuity of `C12_compact_reads`: one concrete instance per kind of compaction -/
 
@@ -279,54 +318,75 @@ theorem C12_put_reads {s : Lsm} (h : LsmInv s) {e : Ent} (he : 0 < e.ver) (k : B
 
 /-! ## snapshot stability: a read at `ts` is unaffected by everything that happens afterwards -/
 
+/-- reflexive-transitive closure of a step relation -/
+inductive RunOf (R : Lsm → Lsm → Prop) : Lsm → Lsm → Prop
+  | refl (s : Lsm) : RunOf R s s
+  | step {s s' s'' : Lsm} (r : RunOf R s s') (st : R s' s'') : RunOf R s s''
+
 /-- one step of the storage engine as seen by a reader at timestamp `ts` (wall clock `≤ now`):
-    a later commit, a memtable flush, or a compaction (other than L0 → L0, see F1/F2) whose
-    `discardTs` does not exceed `ts`. -/
+    a later commit (fresh, larger version), a memtable flush, or a compaction of ANY kind whose
+    `discardTs` does not exceed `ts`; an L0 → Lbase step carries the side condition `TopsOldest`
+    (automatic while L0 is in age order, see `LsmStepAged`). -/
 inductive LsmStep (ts now : Nat) : Lsm → Lsm → Prop
   | put (s : Lsm) (e : Ent) (hts : ts < e.ver) (hmax : e.ver ≤ maxU64)
-      (hnew : ∀ x ∈ s.allEntries, x.key = e.key → x.ver ≤ e.ver) : LsmStep ts now s (s.putEnt e)
+      (hnew : ∀ x ∈ s.allEntries, x.key = e.key → x.ver < e.ver) : LsmStep ts now s (s.putEnt e)
   | flush (s : Lsm) (id : Nat) : LsmStep ts now s (s.flush id)
-  | compact (s s' : Lsm) (cd : CompactDef) (d n now' : Nat) (hc : CompactOk s cd) (hnot : ¬ IsL0L0 s cd)
+  | compact (s s' : Lsm) (cd : CompactDef) (d n now' : Nat) (hc : CompactOk s cd)
+      (hto : IsL0Lbase s cd → TopsOldest s cd)
       (hdp : cd.dropPrefixes = []) (hs : s.compact cd d n now' = some s')
       (hcut : ∀ new0, splitSizes cd.outSizes (compactOutput s cd d n now').1 = some new0 →
         CutsAtKeyChange (withIds new0 cd.outIds))
       (hts : d ≤ ts) (hnow : now' ≤ now) : LsmStep ts now s s'
 
-inductive LsmRun (ts now : Nat) : Lsm → Lsm → Prop
-  | refl (s : Lsm) : LsmRun ts now s s
-  | step {s s' s'' : Lsm} (r : LsmRun ts now s s') (st : LsmStep ts now s' s'') : LsmRun ts now s s''
+/-- the steps that keep L0 in age order: no L0 → L0 compaction, and then no side condition -/
+inductive LsmStepAged (ts now : Nat) : Lsm → Lsm → Prop
+  | put (s : Lsm) (e : Ent) (hts : ts < e.ver) (hmax : e.ver ≤ maxU64)
+      (hnew : ∀ x ∈ s.allEntries, x.key = e.key → x.ver < e.ver) : LsmStepAged ts now s (s.putEnt e)
+  | flush (s : Lsm) (id : Nat) : LsmStepAged ts now s (s.flush id)
+  | compact (s s' : Lsm) (cd : CompactDef) (d n now' : Nat) (hc : CompactOk s cd) (hnot : ¬ IsL0L0 s cd)
+      (hdp : cd.dropPrefixes = []) (hs : s.compact cd d n now' = some s')
+      (hcut : ∀ new0, splitSizes cd.outSizes (compactOutput s cd d n now').1 = some new0 →
+        CutsAtKeyChange (withIds new0 cd.outIds))
+      (hts : d ≤ ts) (hnow : now' ≤ now) : LsmStepAged ts now s s'
 
-/-- everything the theorems of C01 / C12 / C14 need of a state -/
-def LsmGood (s : Lsm) : Prop := LsmInv s ∧ VerBound s ∧ Layered s ∧ s.imm = []
+/-- what every step of the engine preserves and what suffices for the reads: the structural
+    invariant, `uint64` versions, recency across sources with L0 taken as one source (`LayeredX` —
+    the part of `Layered` that survives the L0 → L0 merge-and-re-sort), uniqueness of internal keys
+    (which makes the order of the L0 tables irrelevant), no immutable memtable. -/
+def LsmGood (s : Lsm) : Prop := LsmInv s ∧ VerBound s ∧ LayeredX s ∧ KeyVerUnique s ∧ s.imm = []
 
 instance (s : Lsm) : Decidable (LsmGood s) := by unfold LsmGood; infer_instance
 
 theorem C12_step_stable {ts now : Nat} {s s' : Lsm} (hg : LsmGood s) (st : LsmStep ts now s s') :
     LsmGood s' ∧ ∀ k, visible now (s'.get k ts) = visible now (s.get k ts) := by
-  obtain ⟨h, hv, hl, himm⟩ := hg
+  obtain ⟨h, hv, hl, hu, himm⟩ := hg
   cases st with
   | put e hts hmax hnew =>
     have hpos : 0 < e.ver := by omega
-    refine ⟨⟨LL.put_inv h hpos, LL.put_verBound hv hmax, LL.put_layered hl hnew, himm⟩, ?_⟩
+    have hnew' : ∀ x ∈ s.allEntries, x.key = e.key → x.ver ≤ e.ver := fun x hx hk => Nat.le_of_lt (hnew x hx hk)
+    refine ⟨⟨LL.put_inv h hpos, LL.put_verBound hv hmax, LL.put_layeredX hl hnew', LL.put_keyVerUnique hu hnew,
+      himm⟩, ?_⟩
     intro k
     rw [LL.put_get h hpos, LL.newestLE_cons, C01_get_spec h]
     have : LL.cand k ts e = none := by
       unfold LL.cand; rw [if_neg]; rintro ⟨_, hle⟩; omega
     rw [this]; rfl
   | flush id =>
-    refine ⟨⟨C14_flush_inv h id, ?_, C14_flush_layered hl himm id, ?_⟩, ?_⟩
+    refine ⟨⟨C14_flush_inv h id, ?_, LL.flush_layeredX hl himm id, LL.flush_keyVerUnique hu id, ?_⟩, ?_⟩
     · exact fun x hx => hv x ((LL.mem_allEntries_flush s id x).mp hx)
     · rcases LL.flush_eq_self_or s id with he | ⟨_, _, _, _, he⟩ <;> rw [he] <;> exact himm
     · intro k; rw [C12_flush_reads_noimm h himm]
-  | compact _ cd d n now' hc hnot hdp hs hcut hts hnow =>
-    refine ⟨⟨C14_compact_inv h hv hc hs hcut, C14_compact_verBound h hv hc hs, C14_compact_layered h hl hc hnot hs, ?_⟩, ?_⟩
+  | compact _ cd d n now' hc hto hdp hs hcut hts hnow =>
+    refine ⟨⟨C14_compact_inv h hv hc hs hcut, C14_compact_verBound h hv hc hs, LL.compact_layeredX h hl hc hto hs,
+      LL.compact_keyVerUnique h hu hc hs, ?_⟩, ?_⟩
     · obtain ⟨_, _, rfl⟩ := LL.compact_some hs; exact himm
-    · intro k; exact C12_compact_reads h hv hl hc hnot hdp hs hts hnow
+    · intro k
+      exact C12_compact_reads_weak h hv hl hc hto (fun _ => LL.tblsFun_of_unique hu h hc.1) hdp hs hts hnow
 
 /-- Snapshot stability: starting from a good state, after any number of later commits, flushes and
-    compactions (`discardTs ≤ ts`) every read at `ts` returns what it returned before, and the
-    state is still good. This is C01 + C12 + C14 composed. -/
-theorem C12_snapshot_stable {ts now : Nat} {s s' : Lsm} (hg : LsmGood s) (r : LsmRun ts now s s') :
+    compactions of every kind (L0 → L0 included; `discardTs ≤ ts`) every read at `ts` returns what it
+    returned before, and the state is still good. This is C01 + C12 + C14 composed. -/
+theorem C12_snapshot_stable {ts now : Nat} {s s' : Lsm} (hg : LsmGood s) (r : RunOf (LsmStep ts now) s s') :
     LsmGood s' ∧ ∀ k, visible now (s'.get k ts) = visible now (s.get k ts) := by
   induction r with
   | refl => exact ⟨hg, fun _ => rfl⟩
@@ -336,10 +396,34 @@ theorem C12_snapshot_stable {ts now : Nat} {s s' : Lsm} (hg : LsmGood s) (r : Ls
     exact ⟨hg'', fun k => (hr' k).trans (hr k)⟩
 
 /-- and what it returns is the specification's answer computed on the *original* state -/
-theorem C12_snapshot_spec {ts now : Nat} {s s' : Lsm} (hg : LsmGood s) (r : LsmRun ts now s s') (k : Bytes) :
-    visible now (s'.get k ts) = s.specGet k ts now := by
+theorem C12_snapshot_spec {ts now : Nat} {s s' : Lsm} (hg : LsmGood s) (r : RunOf (LsmStep ts now) s s')
+    (k : Bytes) : visible now (s'.get k ts) = s.specGet k ts now := by
   rw [(C12_snapshot_stable hg r).2 k, C01_read_spec hg.1]
 
-example : LsmGood C12_exBase := by decide
+/-- while L0 stays in age order (no L0 → L0 step) the side condition of L0 → Lbase is automatic:
+    an aged step from an aged state is a step, and the state stays aged -/
+theorem C12_step_aged {ts now : Nat} {s s' : Lsm} (hg : LsmGood s) (hl : Layered s)
+    (st : LsmStepAged ts now s s') : LsmStep ts now s s' ∧ Layered s' := by
+  obtain ⟨h, hv, _, _, himm⟩ := hg
+  cases st with
+  | put e hts hmax hnew =>
+    exact ⟨.put s e hts hmax hnew, C14_put_layered hl (fun x hx hk => Nat.le_of_lt (hnew x hx hk))⟩
+  | flush id => exact ⟨.flush s id, C14_flush_layered hl himm id⟩
+  | compact _ cd d n now' hc hnot hdp hs hcut hts hnow =>
+    exact ⟨.compact s _ cd d n now' hc (fun hk => LL.topsOldest_of_layered h hl hc.1 hk) hdp hs hcut hts hnow,
+      C14_compact_layered h hl hc hnot hs⟩
+
+theorem C12_snapshot_stable_aged {ts now : Nat} {s s' : Lsm} (hg : LsmGood s) (hl : Layered s)
+    (r : RunOf (LsmStepAged ts now) s s') :
+    LsmGood s' ∧ Layered s' ∧ ∀ k, visible now (s'.get k ts) = visible now (s.get k ts) := by
+  induction r with
+  | refl => exact ⟨hg, hl, fun _ => rfl⟩
+  | step _ st ih =>
+    obtain ⟨hg', hl', hr⟩ := ih
+    obtain ⟨st', hl''⟩ := C12_step_aged hg' hl' st
+    obtain ⟨hg'', hr'⟩ := C12_step_stable hg' st'
+    exact ⟨hg'', hl'', fun k => (hr' k).trans (hr k)⟩
+
+example : LsmGood C12_exBase ∧ Layered C12_exBase ∧ LsmGood C12_l0State := by decide
 
 end Badger
